@@ -134,6 +134,7 @@ def build_instance() -> tuple[Path | None, str]:
     d = BUILD / h
     with Lock(BUILD / ".lock.instance"):
         if (d / ".done").exists():
+            os.utime(d)
             return d, ""
         if d.exists():
             shutil.rmtree(d)
@@ -157,11 +158,14 @@ def build_instance() -> tuple[Path | None, str]:
         if rc != 0:
             return None, "Env.v does not compile:\n" + out[-3000:]
         (d / ".done").write_text(h)
-        # prune older build directories
-        others = sorted((p for p in BUILD.iterdir() if p.is_dir() and p != d),
+        # prune build directories that have not been used for three hours (others may be in use
+        # by concurrently running checks), always keeping the four most recent
+        now = time.time()
+        others = sorted((p for p in BUILD.iterdir() if p.is_dir() and p != d and not p.name.startswith("scratch")),
                         key=lambda p: p.stat().st_mtime, reverse=True)
-        for p in others[2:]:
-            shutil.rmtree(p, ignore_errors=True)
+        for p in others[4:]:
+            if now - p.stat().st_mtime > 3 * 3600:
+                shutil.rmtree(p, ignore_errors=True)
     return d, ""
 
 
